@@ -13,7 +13,7 @@ type call = {
 
 type hist = {
   gen : int; bufcap : int; errfull : bool; limiter : bool;
-  flush : int; capint : int; audit : int; maxop : int; pause : int; maxconc : int;
+  flush : int; capint : int; audit : int; maxop : int; pause : int; maxconc : int; busy_fd : int; busy_audit : int;
   watchers : (int * int * int) array;   (* maxbatch, maxattempts, maxop *)
   lines : line list;
   ended : bool;
@@ -50,9 +50,10 @@ let read path : hist =
    with Exit | End_of_file -> ());
   close_in ic;
   match !cfg with
-  | [g; bufcap; errfull; limiter; flush; capint; audit; maxop; pause; maxconc] ->
+  | g :: bufcap :: errfull :: limiter :: flush :: capint :: audit :: maxop :: pause :: maxconc :: busy ->
+      let busy_fd, busy_audit = (match busy with [a; b] -> (a, b) | _ -> (0, 0)) in
       { gen = g; bufcap; errfull = errfull <> 0; limiter = limiter <> 0; flush; capint; audit; maxop;
-        pause; maxconc; watchers = Array.of_list (List.rev !ws); lines = List.rev !lines; ended = !ended; hung = !hung }
+        pause; maxconc; busy_fd; busy_audit; watchers = Array.of_list (List.rev !ws); lines = List.rev !lines; ended = !ended; hung = !hung }
   | _ -> failwith "cfg"
 
 let timeout_of h w =
@@ -325,9 +326,11 @@ let c15 h : string list =
           if ios buf > h.bufcap then hits := (Printf.sprintf "c15:overfull t=%d OperationsInBuffer()=%s exceeds the buffer size %d" ln.t buf h.bufcap) :: !hits;
           if not !shut && ios pend - !parked > 0 && ios buf < h.bufcap && not h.errfull then
             hits := (Printf.sprintf "c15:blocked-with-space gen=%d t=%d %d Enqueue calls are blocked although the buffer holds %s of %d" h.gen ln.t (ios pend - !parked) buf h.bufcap) :: !hits;
-          if !shut && ios pend > 0 then
-            (* callers parked at the hook are released by the harness before it stops *)
-            hits := (Printf.sprintf "c15:blocked-after-shutdown gen=%d t=%d %s Enqueue calls are still blocked after the shutdown event" h.gen ln.t pend) :: !hits
+          if h.errfull && not !shut && ios pend - !parked > 0 then
+            hits := (Printf.sprintf "c15:blocked-in-error-mode gen=%d t=%d %d Enqueue calls are blocked although ErrorOnFullBuffer is set (buffer holds %s of %d)" h.gen ln.t (ios pend - !parked) buf h.bufcap) :: !hits;
+          if !shut && ios pend - !parked > 0 then
+            (* callers parked at the hook by the harness are not counted *)
+            hits := (Printf.sprintf "c15:blocked-after-shutdown gen=%d t=%d %d Enqueue calls are still blocked after the shutdown event" h.gen ln.t (ios pend - !parked)) :: !hits
       | _ -> ()) h.lines;
   Array.iter (fun c ->
       match c.ret with
@@ -362,7 +365,7 @@ let c16 h : string list =
       | _ -> ()) h.lines;
   if h.hung then hits := (Printf.sprintf "c16:hang gen=%d the scenario deadlocked (real-time watchdog)" h.gen) :: !hits;
   (match !last_state with
-   | Some (t, true) when h.ended ->
+   | Some (t, true) when h.ended && h.busy_fd = 0 && h.busy_audit = 0 ->
        hits := (Printf.sprintf "c16:not-terminated t=%d stop was requested on a started Batcher but there is no shutdown event by the end (a pause time later)" t) :: !hits
    | _ -> ());
   if !shut_t >= 0 then
@@ -418,10 +421,13 @@ let per_tick h ~interval ~(is_ev : string list -> bool) ~name ~need_limiter : st
         | _ -> ()) h.lines;
     if !cur_p >= 0 then pauses := (!cur_p, max_int) :: !pauses;
     let last_t = List.fold_left (fun a ln -> max a ln.t) 0 (List.filter (fun ln -> ln.src = "D") h.lines) in
+    (* a listener that keeps the loop busy delays the answer to a tick and lets ticks coalesce: the grid rules
+       only apply when the scenario has no such listener (the replay against the model covers the others) *)
+    let slow = h.busy_fd > 0 || h.busy_audit > 0 in
     if !start_t >= 0 then begin
       let in_pause t = List.exists (fun (a, b) -> a <= t && t <= b) !pauses in
       let k = ref 1 in
-      while !start_t + !k * interval < min !shut_t last_t do
+      while not slow && !start_t + !k * interval < min !shut_t last_t do
         let t = !start_t + !k * interval in
         if not (in_pause t) then begin
           let n = tbl_get evs t in
@@ -434,6 +440,7 @@ let per_tick h ~interval ~(is_ev : string list -> bool) ~name ~need_limiter : st
           let on_grid = t > !start_t && (t - !start_t) mod interval = 0 in
           let at_resume = List.exists (fun (_, b) -> b = t) !pauses in
           if t > !shut_t then hits := (Printf.sprintf "%s:after-shutdown t=%d" name t) :: !hits
+          else if slow then ()
           else if not on_grid && not at_resume then hits := (Printf.sprintf "%s:off-grid t=%d" name t) :: !hits
           else if at_resume && not on_grid && n > 1 then hits := (Printf.sprintf "%s:not-coalesced t=%d %d events after one pause" name t n) :: !hits
           else if List.exists (fun (a, b) -> a < t && t < b) !pauses then hits := (Printf.sprintf "%s:during-pause t=%d" name t) :: !hits) evs
@@ -527,6 +534,7 @@ let c14 h : string list =
   let calls = calls_of h in
   let hits = ref [] in
   let ncb = Hashtbl.create 64 in   (* deliveries (callback entries) per object so far *)
+  let nraised = Hashtbl.create 64 in   (* batches raised so far that contain the object: its attempt counter may already count them *)
   let maxcap = ref 0 in
   let inflight_dup = Hashtbl.create 16 in
   ignore inflight_dup;
@@ -536,6 +544,9 @@ let c14 h : string list =
       match ln.src, ln.w with
       | "D", ["act"; "setmaxcap"; v] -> maxcap := ios v
       | "L", ["shutdown"] -> shut := true
+      | "L", "batch" :: rest ->
+          let (_, ids, _) = ids_of rest in
+          List.iter (fun id -> tbl_add nraised id 1) ids
       | _, "cbstart" :: rest ->
           let (_, ids, att) = ids_of rest in
           List.iter (fun id -> tbl_add ncb id 1) ids;
@@ -557,7 +568,10 @@ let c14 h : string list =
           (match expected, c.ret with
            | Some e, Some (_, r) -> if r <> e then hits := (Printf.sprintf "c14:wrong-verdict call %d expected result %d got %d" c.idx e r) :: !hits
            | Some e, None -> hits := (Printf.sprintf "c14:wrong-verdict call %d expected result %d but the call did not return" c.idx e) :: !hits
-           | None, Some (_, r) -> if r >= 1 && r <= 4 then hits := (Printf.sprintf "c14:spurious-reject call %d rejected with %d" c.idx r) :: !hits
+           | None, Some (_, r) ->
+               let (_, ma, _) = if c.cw >= 0 then h.watchers.(c.cw) else (0, 0, 0) in
+               let maybe_counted = r = 4 && ma > 0 && tbl_get nraised c.obj >= ma in
+               if r >= 1 && r <= 4 && not maybe_counted then hits := (Printf.sprintf "c14:spurious-reject call %d rejected with %d" c.idx r) :: !hits
            | None, None -> ())
       | _ -> ()) h.lines;
   (* rejections leave no trace: sample before = sample after for validation rejects *)
@@ -579,6 +593,53 @@ let c14 h : string list =
   List.rev !hits
 
 (* ------------------------------------------------------------------ C08 *)
+(* Flush(): a cycle starts as soon as the loop is free (v2: the flush-start event shows it).  The loop is not
+   free while it sleeps in a pause (pause .. resume) or sits in a listener that takes its time (after a
+   flush-done / audit event, for the configured duration).  From the Flush() call we walk forward through these
+   windows: the first instant at which the loop is free must carry a flush-start. *)
+let c08_flush h : string list =
+  if h.gen <> 2 then [] else begin
+    let hits = ref [] in
+    let arr = Array.of_list h.lines in
+    let n = Array.length arr in
+    let windows = ref [] and pause_from = ref (-1) in
+    let start_t = ref max_int and shut_t = ref max_int in
+    Array.iter (fun ln ->
+        match ln.src, ln.w with
+        | _, ["startret"; "1"] -> if !start_t = max_int then start_t := ln.t
+        | "L", ["shutdown"] -> if !shut_t = max_int then shut_t := ln.t
+        | "L", ["pause"; _] -> pause_from := ln.t
+        | "L", ["resume"] -> if !pause_from >= 0 then windows := (!pause_from, ln.t) :: !windows; pause_from := -1
+        | "L", ["flushdone"] -> if h.busy_fd > 0 then windows := (ln.t, ln.t + h.busy_fd) :: !windows
+        | "L", (("auditskip" | "auditpass" | "auditfail") :: _) -> if h.busy_audit > 0 then windows := (ln.t, ln.t + h.busy_audit) :: !windows
+        | _ -> ()) arr;
+    if !pause_from >= 0 then windows := (!pause_from, max_int) :: !windows;
+    let last_t = if n > 0 then arr.(n - 1).t else 0 in
+    let stop_t = ref max_int in
+    Array.iter (fun ln -> match ln.src, ln.w with "D", ["act"; "stop"] -> if !stop_t = max_int then stop_t := ln.t | _ -> ()) arr;
+    let fs_after i t = (* a flush-start at time t logged after line i *)
+      let r = ref false in
+      for j = i + 1 to n - 1 do if arr.(j).t = t && arr.(j).src = "L" && arr.(j).w = ["flushstart"] then r := true done; !r in
+    let fs_at t = Array.exists (fun ln -> ln.t = t && ln.src = "L" && ln.w = ["flushstart"]) arr in
+    Array.iteri (fun i ln ->
+        match ln.src, ln.w with
+        | "D", ["act"; "flush"] when ln.t >= !start_t && ln.t < !stop_t ->
+            let cur = ref ln.t and fin = ref false and steps = ref 0 in
+            while not !fin && !steps < 1000 do
+              incr steps;
+              if !cur >= min !shut_t (min !stop_t last_t) then fin := true
+              else if (if !cur = ln.t then fs_after i !cur else fs_at !cur) then fin := true
+              else
+                (match List.filter (fun (a, b) -> a <= !cur && !cur < b) !windows with
+                 | [] ->
+                     hits := (Printf.sprintf "c08:flush-not-served Flush() at t=%d: the loop is free at t=%d but no cycle starts there" ln.t !cur) :: !hits;
+                     fin := true
+                 | ws -> cur := List.fold_left (fun m (_, b) -> max m b) !cur ws)
+            done
+        | _ -> ()) arr;
+    List.rev !hits
+  end
+
 let c08 h : string list =
   (* head progress, in the cases a history determines: a cycle that starts on a running Batcher with a
      non-empty buffer, an allowance of at least one unit (limiter absent, or Capacity() >= 1 and an interval of
@@ -632,7 +693,7 @@ let c10 h =
 let monitor (pid : string) (h : hist) : string list =
   match pid with
   | "C01" -> c01 h @ c08 h | "C02" -> c02 h | "C03" -> c03 h | "C05" -> c05 h
-  | "C08" -> c08 h @ c01 h @ List.filter (fun s -> String.length s > 22 && String.sub s 0 22 = "c15:blocked-with-space") (c15 h)
+  | "C08" -> c08 h @ c08_flush h @ c01 h @ List.filter (fun s -> String.length s > 22 && String.sub s 0 22 = "c15:blocked-with-space") (c15 h)
   | "C10" -> c10 h | "C11" -> c11 h | "C12" -> c12 h | "C13" -> c13 h @ c01 h | "C14" -> c14 h
   | "C15" -> c15 h | "C16" -> c16 h | "C19" -> c19 h
   | _ -> []
